@@ -223,7 +223,28 @@ func gen(t *rapid.T) Case {
 				l = l[cut:]
 			}
 		}
-		if len(c.Lines) == 1 && len(c.Lines[0]) >= 3 && rapid.IntRange(0, 7).Draw(t, "star") == 3 {
+		if len(c.Lines) == 1 && len(c.Lines[0]) >= 3 && rapid.IntRange(0, 7).Draw(t, "nearlyclosed") == 5 {
+			// round 13: the line comes back to where it started, up to rounding: its last vertex is the first one moved by
+			// one to three steps to the neighbouring floating-point numbers - an open line all the same
+			f := c.Lines[0][0]
+			nx, ny := float64(f[0]), float64(f[1])
+			for k, n := 0, rapid.IntRange(1, 3).Draw(t, "ncul"); k < n; k++ {
+				switch rapid.IntRange(0, 3).Draw(t, "ncax") {
+				case 0:
+					ny = math.Nextafter(ny, math.Inf(1))
+				case 1:
+					ny = math.Nextafter(ny, math.Inf(-1))
+				case 2:
+					nx = math.Nextafter(nx, math.Inf(1))
+				default:
+					nx = math.Nextafter(nx, math.Inf(-1))
+				}
+			}
+			if nx != float64(f[0]) || ny != float64(f[1]) {
+				c.Lines[0] = append(append([]vkit.P2{}, c.Lines[0]...), vkit.MkP(nx, ny))
+				c.Place += "_nearly_closed"
+			}
+		} else if len(c.Lines) == 1 && len(c.Lines[0]) >= 3 && rapid.IntRange(0, 7).Draw(t, "star") == 3 {
 			// a junction: the line is cut at an inner vertex J, and one or two short spurs leave J sideways - three or four
 			// members that all end in J, listed in any order and direction
 			l := c.Lines[0]
@@ -340,6 +361,15 @@ func lineSimple(lines [][]vkit.P2, margin float64) bool {
 	for i := range ss {
 		for j := i + 1; j < len(ss); j++ {
 			e, f := ss[i], ss[j]
+			if l := lines[e.li]; e.li == f.li && e.idx == 0 && f.idx == len(l)-2 && f.idx > 1 && l[0] != l[len(l)-1] &&
+				vkit.DistPtSeg(l[0], l[len(l)-1], l[len(l)-1]) <= margin {
+				// round 13: an open line that ends within rounding of where it starts (an outline walked once around, its end
+				// computed): the first and the last segment are judged like neighbours - they must not run along each other
+				if vkit.DistPtSeg(e.b, f.a, f.b) <= margin || vkit.DistPtSeg(f.a, e.a, e.b) <= margin {
+					return false
+				}
+				continue
+			}
 			if e.li == f.li && f.idx == e.idx+1 {
 				if vkit.DistPtSeg(f.b, e.a, e.b) <= margin || vkit.DistPtSeg(e.a, f.a, f.b) <= margin {
 					return false
@@ -658,7 +688,8 @@ func TestProp(t *testing.T) {
 			"the input line and inside or on P, and the result is empty exactly when the expected length is 0. Non-trivial = the line crosses the boundary of P at least twice. Distinct by case hash." +
 			" Round 9: block-exit lines with long tails (K or 2K more vertices outside after the exit at vertex K)." +
 			" Round 10: junctions (1 single-line case in 8: the line cut at an inner vertex plus one or two spurs - three or four members ending in one point, shuffled and reversed)." +
-			" Round 12: closed loops of axis-parallel members (1 single-line case in 12: the sides of a rectangle around the middle of P, some cut in two, shuffled and reversed).",
+			" Round 12: closed loops of axis-parallel members (1 single-line case in 12: the sides of a rectangle around the middle of P, some cut in two, shuffled and reversed)." +
+			" Round 13: one single-line case in eight ends within one to three floating-point steps of where it starts (an open line all the same; its first and last segment are judged like neighbours by the simplicity filter).",
 		Assumptions: []string{"general position enforced by filter", "oracle in vkit (SegIntersection, PIP) trusted"},
 		Gen:         gen,
 		Run:         run,
